@@ -153,9 +153,59 @@ fn scalars(ctx: &mut Ctx) {
         }
         c += step;
     }
+    // pairs of code units around the line-feed byte patterns: U+xx00 followed by U+0Ayy (a 00 0A byte
+    // pair across two units in big-endian order) and U+xx0A followed by U+00yy (0A .. 00 in little-endian)
+    let stride = if exhaustive { 1 } else { 3 };
+    let mut k = ctx.shard as u32;
+    let mut pairs = 0u64;
+    while k < 256 * 256 {
+        let (a, b) = (k / 256, k % 256);
+        if (k / ctx.nshards as u32) % stride == 0 && a != 0 && !(0xD8..=0xDF).contains(&a) {
+            for (c1, c2) in [(a << 8, 0x0A00 | b), ((a << 8) | 0x0A, b.max(0x20))] {
+                if let (Some(x), Some(y)) = (char::from_u32(c1), char::from_u32(c2)) {
+                    pair_case(ctx, x, y);
+                    pairs += 1;
+                }
+            }
+        }
+        k += ctx.nshards as u32;
+        if pairs % 4096 == 4095 && ctx.out_of_time() {
+            complete = false;
+            break;
+        }
+    }
+    ctx.add("scalar_pairs_checked", pairs);
     if exhaustive {
         ctx.report.exhaustive = Some(complete);
         ctx.note("exhaustive part: every Unicode scalar value as metadata content in UTF-8+BOM, UTF-16LE and UTF-16BE, in two positions");
+    }
+}
+
+fn pair_case(ctx: &mut Ctx, c1: char, c2: char) {
+    let index = 5 << 56 | (c1 as u64) << 24 | c2 as u64;
+    for text in [format!("[Metadata]\nTitle:{c1}{c2}\nArtist: z\n"), format!("[Metadata]\nArtist: z\nTitle: {c1}{c2}")] {
+        let utf8 = text.as_bytes();
+        ctx.case(index, utf8, |ctx| {
+            let exp = framing::model(utf8);
+            let Ok(md0) = rosu_map::from_bytes::<Metadata>(utf8) else { return };
+            for enc in [Enc::Utf8Bom, Enc::Utf16Le, Enc::Utf16Be] {
+                let bytes = gen::transcode(&text, enc);
+                match (rosu_map::from_bytes::<Trace>(&bytes), rosu_map::from_bytes::<Metadata>(&bytes)) {
+                    (Ok(t), Ok(md)) => {
+                        if t != exp || md != md0 {
+                            ctx.violation(
+                                "scalar_pair_mismatch",
+                                format!("U+{:04X} U+{:04X} in {}: title {:?} / artist {:?}, UTF-8 gives {:?} / {:?}; dispatch {}", c1 as u32, c2 as u32, enc.name(), md.title, md.artist, md0.title, md0.artist, t.render()),
+                                index,
+                                &bytes,
+                            );
+                        }
+                    }
+                    (a, b) => ctx.violation("err_from_memory", format!("U+{:04X} U+{:04X} in {}: {:?} {:?}", c1 as u32, c2 as u32, enc.name(), a.err(), b.err()), index, &bytes),
+                }
+            }
+        });
+        ctx.eval(fnv64(utf8), true);
     }
 }
 
